@@ -163,6 +163,15 @@ HrefOf(as) == LET I == {i \in 1..Len(as) : as[i].n = N_href /\ as[i].hv} IN
               IF I = {} THEN [has |-> FALSE, v |-> <<>>]
               ELSE [has |-> TRUE, v |-> PlainOf(as[CHOOSE i \in I : \A j \in I : i <= j].v, 1)]
 
+HasMark(ps) == \E i \in 1..Len(ps) : ps[i].m # 0
+ValHasMark(as) == \E i \in 1..Len(as) : HasMark(as[i].v)
+(* tokenizer recoveries (bad) on a token that carries or follows sentinel text were introduced by the payload: sentinel clause; *)
+(* on a token of the template they are plain ill-formedness: balanced clause                                                  *)
+Malformed(s, bad, payload, span) ==
+    IF bad = <<>> THEN s
+    ELSE IF payload THEN Rej(s, "html.sentinel", "malformed-markup-in-span", span)
+    ELSE RejAll(s, "html.balanced", bad, 1)
+
 (* ---------------------------------------- one action per event kind -------------------------------------- *)
 DoRun(s, e) == [Init0 EXCEPT !.exp = e.exp]
 
@@ -172,8 +181,8 @@ DoOpen(s, e) ==
     LET s0 == [s EXCEPT !.rej = <<>>, !.notes = <<>>]
         s1 == Markup(s0)
         s2 == IF e.taint > 0 THEN Rej(s1, "html.sentinel", "sentinel-in-tag-or-attribute-name", 0) ELSE s1
-        s3 == RejAll(s2, "html.balanced", e.bad, 1)
-        s4 == AttrFold(s3, e.a, 1)
+        s3 == AttrFold(s2, e.a, 1)
+        s4 == Malformed(s3, e.bad, s.doc.span # 0 \/ e.taint > 0 \/ ValHasMark(e.a), s.doc.span)
         h  == HrefOf(e.a)
         \* an <a> that opens while a sentinel span is open may have been introduced by the payload: remembered in the link (inspan)
         s5 == IF e.t = N_a
@@ -185,7 +194,7 @@ DoClose(s, e) ==
     LET s0 == [s EXCEPT !.rej = <<>>, !.notes = <<>>]
         s1 == Markup(s0)
         s2 == IF e.taint > 0 THEN Rej(s1, "html.sentinel", "sentinel-in-tag-or-attribute-name", 0) ELSE s1
-        s3 == RejAll(s2, "html.balanced", e.bad, 1)
+        s3 == Malformed(s2, e.bad, s.doc.span # 0 \/ e.taint > 0, s.doc.span)
         st == s.doc.stack
         k  == LastIndex(st, e.t, Len(st))
         s4 == IF st # <<>> /\ st[Len(st)] = e.t THEN [s3 EXCEPT !.doc.stack = SubSeq(st, 1, Len(st) - 1)]
@@ -199,14 +208,10 @@ DoClose(s, e) ==
                ELSE s5
        ELSE s4
 
-HasMark(ps) == \E i \in 1..Len(ps) : ps[i].m # 0
-
 DoText(s, e) ==
     LET s0 == [s EXCEPT !.rej = <<>>, !.notes = <<>>]
-        \* malformed markup (an unterminated tag / comment flushed as text ...) in or around a sentinel span was introduced by the payload
-        s1 == IF e.bad # <<>> /\ (s.doc.span # 0 \/ HasMark(e.p))
-              THEN Rej([s0 EXCEPT !.doc.broken = TRUE], "html.sentinel", "malformed-markup-in-span", s.doc.span)
-              ELSE RejAll(s0, "html.balanced", e.bad, 1)
+        pl == s.doc.span # 0 \/ HasMark(e.p)
+        s1 == Malformed(IF e.bad # <<>> /\ pl THEN [s0 EXCEPT !.doc.broken = TRUE] ELSE s0, e.bad, pl, s.doc.span)
     IN IF e.raw
        THEN (IF HasMark(e.p) THEN Rej(s1, "html.sentinel", "sentinel-in-raw-text-element", 0) ELSE s1)
        ELSE LET s2 == TextFold(s1, e.p, 1)
@@ -314,4 +319,29 @@ SentinelClause == ("html.sentinel" \in (seen \cup EndClauses)) <=> ~SpansOK(toks
 StackIsOpenTags == Len(st.doc.stack) <= Len(toks)
 (* negative control (expected to be VIOLATED): some string of full length that contains a span is accepted   *)
 NoSpanEverAccepted == ~(Len(toks) = MaxLen /\ (seen \cup EndClauses) = {} /\ \E i \in 1..Len(toks) : toks[i] = "so")
+
+(* ---- unit sanity of rarely taken branches (evaluated once at start-up of every run that loads this module) ---- *)
+AcceptsPage(es) ==
+    RunAll(Step(Step(Init0, [k |-> "run", exp |-> <<>>]), [k |-> "doc", pg |-> 1, path |-> <<N_index_html>>]),
+           es \o <<[k |-> "enddoc", pg |-> 1]>>, 1, <<>>, <<>>).rej = <<>>
+N_path == <<112, 97, 116, 104>>
+N_div == <<100, 105, 118>>
+ASSUME AcceptsPage(<<OpenEv(N_svg), [OpenEv(N_path) EXCEPT !.sc = TRUE], CloseEv(N_svg)>>)      \* <svg><path/></svg>
+ASSUME ~AcceptsPage(<<[OpenEv(N_div) EXCEPT !.sc = TRUE]>>)                                   \* <div/> stays open in HTML
+ASSUME ~AcceptsPage(<<OpenEv(N_br), CloseEv(N_br)>>)                                          \* </br>
+ASSUME ~AcceptsPage(<<[OpenEv(N_p) EXCEPT !.bad = <<"dupattr">>], CloseEv(N_p)>>)
+UA == <<97>>  UB == <<98>>
+UPages == {<<UA, N_index_html>>, <<UA, UB, N_index_html>>}
+UR(page, href) == Resolve(page, href, UPages)
+ASSUME UR(<<UA, UB, N_index_html>>, <<46, 46, 47, 35, 120>>) = [ok |-> TRUE, why |-> "ok", page |-> <<UA, N_index_html>>, frag |-> <<120>>]   \* ../#x
+ASSUME UR(<<UA, N_index_html>>, <<47, 97, 47, 98, 47>>).page = <<UA, UB, N_index_html>>                                             \* /a/b/
+ASSUME UR(<<UA, N_index_html>>, <<98>>).page = <<UA, UB, N_index_html>>                                                             \* b (a directory)
+ASSUME UR(<<UA, N_index_html>>, <<46, 46, 47, 46, 46, 47, 120>>).why = "outside-output"                                             \* ../../x
+ASSUME UR(<<UA, N_index_html>>, <<104, 116, 116, 112, 58, 47, 47, 104, 47>>).why = "external"                                       \* http://h/
+ASSUME UR(<<UA, N_index_html>>, <<46, 47, 98, 47, 105, 110, 100, 101, 120, 46, 104, 116, 109, 108, 63, 113, 35, 102>>)
+         = [ok |-> TRUE, why |-> "ok", page |-> <<UA, UB, N_index_html>>, frag |-> <<102>>]                                         \* ./b/index.html?q#f
+ASSUME UR(<<UA, N_index_html>>, <<>>).page = <<UA, N_index_html>>
+ASSUME LinkVerdict([from |-> <<UA, N_index_html>>, href |-> <<98, 47, 35, 120>>], UPages, {<<<<UA, UB, N_index_html>>, <<120>>>>}) = "ok"
+ASSUME LinkVerdict([from |-> <<UA, N_index_html>>, href |-> <<98, 47, 35, 121>>], UPages, {<<<<UA, UB, N_index_html>>, <<120>>>>}) = "anchor-not-produced"
+ASSUME LinkVerdict([from |-> <<UA, N_index_html>>, href |-> <<99, 47, 35, 120>>], UPages, {}) = "page-not-produced"
 =============================================================================
